@@ -20,7 +20,7 @@ AliasPairs == {<<s, a \o MRest(s)>> : s \in MKeys, a \in {"min", "mi", "-"}} \cu
               {<<s, a \o BigMRest(s)>> : s \in BigMKeys, a \in {"maj", "ma"}} \cup
               {<<"m/M7", a \o "/" \o b \o "7">> : a \in {"m", "min", "mi", "-"}, b \in {"M", "maj", "ma"}} \cup
               {<<"mM7", a \o b \o "7">> : a \in {"m", "min", "mi", "-"}, b \in {"M", "maj", "ma"}}
-BadBasses == {<<"H">>, <<"c">>, <<"G","x">>, <<"8">>, <<"E","m">>, <<"b">>}
+BadBasses == {<<"H">>, <<"c">>, <<"G","x">>, <<"8">>, <<"E","m">>, <<"b">>, <<"G","\n">>, <<"E","b","\n">>, <<"G"," ">>, <<" ","G">>, <<"\n","G">>}
 \* a documented shorthand with white space before or after it is not a documented shorthand
 Whites == {"\n", " ", "\t", "\n\n"}
 UnknownSuffixes == {"x", "7sus", "sus9", "M8", "+x", "dm", "77", "5x", "/", "|", "m/", "hendri", "NC", "dom"} \cup
